@@ -38,7 +38,7 @@ pub fn prop() -> Prop {
         stub: &["transport", "store", "glue", "random source", "Byzantine coalition behaviour"],
         independent: &["harness Lagrange interpolation over the public Field trait"],
         ref_sample: |_| 0,
-        required_probes: &["coalition_size_1", "coalition_size_t_minus_1", "padded_phantoms", "lowered_threshold", "threshold_none", "signer_refused", "aggregate_refused", "reconstruct_refused", "degree_checked"],
+        required_probes: &["coalition_size_1", "coalition_size_t_minus_1", "padded_phantoms", "lowered_threshold", "threshold_none", "signer_refused", "aggregate_refused", "reconstruct_refused", "degree_checked", "after_refresh", "after_repair"],
         prepare: None,
     }
 }
@@ -71,6 +71,23 @@ fn gen_c<C: Suite>(seed: u64, run: u64, tier: Tier) -> Scenario {
     };
     let coalition = p.subset(n as usize, k);
     s.extra = json!({"coalition": coalition, "msg_hex": hexs(&gen_message(&mut p))});
+    // a third of the worlds have a history before the attempts: the group refreshes its shares (trusted dealer or distributed),
+    // and in half of those a coalition member then loses its share and has it repaired - the key material the refusals are
+    // checked with is then what these steps left behind, not what key generation produced
+    let mut hp = stream(seed, run, "gen/history");
+    if hp.chance(1, 3) {
+        let all: Vec<usize> = (0..n as usize).collect();
+        let use_dkg = hp.chance(1, 2) && n <= if slow { 3 } else { 4 };
+        s.phases.push(vec![if use_dkg { Inst::RefreshDkg { remaining: all } } else { Inst::RefreshDealer { remaining: all } }]);
+        if hp.chance(1, 2) && (n as usize) - 1 >= t as usize {
+            let target = coalition[hp.below(coalition.len() as u64) as usize];
+            let pool: Vec<usize> = (0..n as usize).filter(|x| *x != target).collect();
+            let hk = hp.range(t as u64, pool.len() as u64) as usize;
+            let mut helpers: Vec<usize> = hp.subset(pool.len(), hk).into_iter().map(|i| pool[i]).collect();
+            hp.shuffle(&mut helpers);
+            s.phases.push(vec![Inst::Repair { target, helpers }]);
+        }
+    }
     s
 }
 
@@ -97,6 +114,12 @@ fn exec_c<C: Suite>(scen: &Scenario) -> Exec {
     let t = scen.t;
     let n = scen.n as usize;
     let kps = current_kps(&sim);
+    if scen.phases.iter().any(|ph| matches!(ph.first(), Some(Inst::RefreshDealer { .. }) | Some(Inst::RefreshDkg { .. }))) {
+        rep.probe("after_refresh");
+    }
+    if scen.phases.iter().any(|ph| matches!(ph.first(), Some(Inst::Repair { .. }))) {
+        rep.probe("after_repair");
+    }
     let pk = match sim.hub.as_ref().and_then(|h| h.pk.clone()) {
         Some(pk) => pk,
         None => return Exec::Harness("no public key package".into()),
